@@ -5,3 +5,4 @@ CONSTANTS
   ChainCs = {0, 2, 3}
   Triples = FALSE
   TripleCs = {0}
+  DiaCs = {1, 3}
